@@ -177,6 +177,11 @@ def run_all(ctx, cfgbin, work, thorough):
     s = summary_of(run_bin(cfgbin, ["replay", work, str(nlay)], stdin_data=data), "replay")
     if s["cases"] != len(g.prints):
         raise vlib.ToolError("harness consumed %d of %d cases" % (s["cases"], len(g.prints)))
+    if s.get("internal"):
+        raise vlib.ToolError("harness could not locate %d damaged token(s) in its own rendering" % s["internal"])
+    if s.get("drift_default_host"):
+        # Config.default_host.matches is an implementation detail the property does not mention
+        ctx.drift("default-host-name", "Config.default_host.matches is no longer \"*\" in %d loads" % s["drift_default_host"], None)
     ctx.cov["evaluations"] += s["loads"]
     ctx.cov["distinct_nontrivial"] += s["nontrivial"]
     ctx.cov["traces_validated_against_impl"] += s["loads"]
@@ -227,8 +232,8 @@ def run_all(ctx, cfgbin, work, thorough):
                 raise vlib.ToolError("Trace_Config failed without a rejection list: " + t.out[-1500:])
             for x in rej[:3]:
                 m = {"fault": x["ast"]["fault"], "obs": x["obs"], "exp": x["demanded"]}
-                ctx.violation("random configuration %d: the loader's outcome (%s, line %s) is not what the file describes (%s %s)"
-                              % (i + x["index"], x["obs"]["kind"], x["obs"]["line"], x["demanded"]["kind"], x["demanded"]["why"]),
+                ctx.violation("random configuration %d: the loader's outcome (%s, numbers in the error %s) is not what the file describes (%s %s)"
+                              % (i + x["index"], x["obs"]["kind"], x["obs"].get("nums"), x["demanded"]["kind"], x["demanded"]["why"]),
                               {"kind": "config-trace", "rejected": [x]}, dev=attribute(m))
         ntr += len(part)
     ctx.cov["evaluations"] += ntr
@@ -242,7 +247,7 @@ def run_all(ctx, cfgbin, work, thorough):
                  include_files=sum(x["layout"]["files"] - 1 for x in recs))
     ex = next((x for x in recs if x["ast"]["fault"]["cls"] and x["obs"]["kind"] == "parse-error"), None)
     if ex:
-        ctx.sample({"random_fault": ex["ast"]["fault"], "observed": ex["obs"]["kind"], "line": ex["obs"]["line"], "token_at": ex["tok"]})
+        ctx.sample({"random_fault": ex["ast"]["fault"], "observed": ex["obs"]["kind"], "numbers_in_error": ex["obs"]["nums"], "token_at": ex["tok"]})
 
     # 5b. self-test: a corrupted log record must be rejected by TLC
     bad = corrupt_records(recs[:200]) if not ctx.violations else []
@@ -329,7 +334,7 @@ def corrupt_records(recs):
     pe = next((x for x in recs if x["obs"]["kind"] == "parse-error" and x["ast"]["fault"]["cls"] in ("MissingValue", "BadNumber", "UnknownUnit")), None)
     if pe:
         y = copy.deepcopy(pe)
-        y["obs"]["line"] -= 1
+        y["obs"]["nums"] = [n - 1 for n in y["obs"]["nums"]]
         out.append(y)
     er = next((x for x in recs if x["obs"]["kind"] in ("parse-error", "tree-error")), None)
     if er:
